@@ -10,13 +10,14 @@ import (
 // Truncate performs what the miner does before mining on an older block: walk the state to
 // the target (a main-chain block), then truncate the ledger to it.
 func (s *SUT) Truncate(i int) Op {
-	if err := s.N.Walk(s.T.Blocks[i].ID, false); err != nil {
-		return s.log(Op{Kind: "truncate", Block: i, Result: "FAIL(walk " + err.Error() + ")"})
+	// the engine's own rollback step (miner.truncateForMiner: State.Walk, then Ledger.Truncate)
+	err := s.N.TruncateForMiner(s.T.Blocks[i].ID)
+	if string(s.N.StateTip()) == string(s.T.Blocks[i].ID) {
+		for _, j := range s.T.Path(i) {
+			s.Applied[j] = true
+		}
 	}
-	for _, j := range s.T.Path(i) {
-		s.Applied[j] = true
-	}
-	if err := s.N.Ledger.Truncate(s.T.Blocks[i].ID); err != nil {
+	if err != nil {
 		return s.log(Op{Kind: "truncate", Block: i, Result: "FAIL(" + err.Error() + ")"})
 	}
 	for _, b := range s.T.Blocks {
